@@ -419,6 +419,13 @@ class Session:
                     c.client = None
 
     def free_steps(self, k, budget):
+        self.free_from = len(self.steps)
+        try:
+            self._free_steps(k, budget)
+        finally:
+            self.free_to = len(self.steps)
+
+    def _free_steps(self, k, budget):
         for s in range(k):
             acts = self.enabled(budget)
             if not acts:
